@@ -1,6 +1,7 @@
 package parser
 
 import (
+	"go/token"
 	"go/types"
 	"unicode"
 
@@ -81,5 +82,5 @@ func isValidIdentifier(id string) bool {
 			return false
 		}
 	}
-	return id != ""
+	return id != "" && !token.IsKeyword(id)
 }
